@@ -732,6 +732,10 @@ func redactScalarValue(keyPath []string, v interface{}, isSearchStage bool, isSe
 		} else {
 			grandParentKey = ""
 		}
+		if grandParentKey == "$binary" && keyPath[len(keyPath)-1] == "subType" {
+			// the BSON binary subtype is not user data; the search-stage tables do not know the $binary wrapper
+			return v
+		}
 		op, isOp := getOp(keyPath, isSearchStage)
 		if !isOp {
 			parentKey = keyPath[len(keyPath)-1]
